@@ -95,6 +95,8 @@ def _run_task(task):
 
         guard.HANGS[0] = 0
         r = func(params, lo, hi)
+        for v in r["violations"]:
+            v["_chunk"] = [jname, lo, hi]  # replay handle for failures that depend on the calls made before them
         if guard.HANGS[0]:
             r["counters"]["hangs"] = max(r["counters"].get("hangs", 0), guard.HANGS[0])
             if guard.HANGS[0] >= 2:
@@ -112,7 +114,7 @@ def _init_worker():
 
 
 def vkey(v: dict) -> str:
-    blob = json.dumps([v.get("function"), v.get("kind"), v.get("witness")], sort_keys=True, default=repr)
+    blob = json.dumps([v.get("function"), v.get("kind"), v.get("witness")], sort_keys=True, default=repr)  # _chunk is not part of the identity
     return hashlib.sha1(blob.encode()).hexdigest()[:16]
 
 
@@ -143,13 +145,14 @@ def match_finding(v: dict, findings: list[dict]) -> dict | None:
     return None
 
 
-def write_replay(pid: str, v: dict) -> str:
+def write_replay(pid: str, v: dict, tier: str = "quick", seed: int = 0) -> str:
     d = os.path.join(VERIF, "replays", pid)
     os.makedirs(d, exist_ok=True)
     key = vkey(v)
     path = os.path.join(d, key + ".json")
     body = dict(v)
     body["property"] = pid
+    body["_tier"], body["_seed"] = tier, seed
     body["replay_cmd"] = f"./check {pid} --replay replays/{pid}/{key}.json"
     with open(path, "w") as f:
         json.dump(body, f, indent=1, sort_keys=True, default=repr)
@@ -336,7 +339,7 @@ def run_check(pid: str, tier: str, seed: int, procs: int, only: str | None = Non
         hist = Counter((v.get("function"), v.get("kind")) for v in fresh)
         print("  violation kinds: " + ", ".join(f"{f}/{k} x{n}" for (f, k), n in hist.most_common()))
         for v in fresh[:10]:
-            path = write_replay(pid, v)
+            path = write_replay(pid, v, tier, seed)
             print(f"  {v.get('function')} {v.get('kind')}: {str(v.get('detail'))[:300]}")
             print(f"VIOLATION property={pid} replay={os.path.relpath(path, VERIF)}")
         if len(fresh) > 10:
@@ -355,6 +358,17 @@ def run_replay(pid: str, path: str) -> int:
     if json.dumps(a, sort_keys=True, default=repr) != json.dumps(b, sort_keys=True, default=repr):
         print(f"HARNESS-ERROR property={pid} replay not deterministic")
         return 2
+    if not a and v.get("_chunk"):
+        # the case passes on its own: re-run the chunk it was found in (same call history) in this fresh process
+        jname, lo, hi = v["_chunk"]
+        for j in mod.jobs(v.get("_tier", "quick"), int(v.get("_seed", 0))):
+            if j.name == jname:
+                r = j.func(j.params, lo, hi)
+                want = vkey(v)
+                for x in r["violations"]:
+                    if vkey(x) == want:
+                        a = dict(x, detail="(only after the preceding calls of its chunk) " + str(x.get("detail")))
+                        break
     if a:
         print(f"  {a.get('function')} {a.get('kind')}: {a.get('detail')}")
         print(f"VIOLATION property={pid} replay={path}")
